@@ -158,10 +158,19 @@ func randomCodeFrom(a *Asm, r *Rng, n int, targets []common.Address) []byte {
 			for j, b := range init {
 				a.Op(opPUSH1, b).PushU(uint64(j)).Op(0x53)
 			}
+			// the init-code range may reach beyond the memory expanded so far (zeros = STOPs follow the code): the instruction
+			// expands memory itself, but a tracer sees the step before that happens
+			size, off := uint64(len(init)), uint64(0)
+			if r.Chance(30) {
+				size += uint64(32 * (1 + r.Intn(6)))
+				if r.Chance(30) {
+					off = uint64(r.Intn(40))
+				}
+			}
 			if r.Bool() {
-				a.PushU(uint64(r.Intn(2))).PushU(uint64(len(init))).PushU(0).PushU(0).Op(opCREATE2, opPOP)
+				a.PushU(uint64(r.Intn(2))).PushU(size).PushU(off).PushU(0).Op(opCREATE2, opPOP)
 			} else {
-				a.PushU(uint64(len(init))).PushU(0).PushU(uint64(r.Intn(2))).Op(opCREATE, opPOP)
+				a.PushU(size).PushU(off).PushU(uint64(r.Intn(2))).Op(opCREATE, opPOP)
 			}
 		case k < 90: // environment / block ops
 			a.Op(stdOps[29+r.Intn(22)])
@@ -374,27 +383,54 @@ func firstDiff(a, b []string) string {
 }
 
 // native tracers of both sides on the same execution
+var lastTracerPanic string
+var upstreamTracerPanics int
+
 func runTracerPair(c *diffCase, name string, cfgJSON string, gas uint64) string {
+	return runTracerPairFrom(c, name, cfgJSON, gas, callerAddr, false)
+}
+
+// from: the top-level sender (the target itself for a self-call); create: a top-level creation of the root's code
+func runTracerPairFrom(c *diffCase, name string, cfgJSON string, gas uint64, from common.Address, create bool) string {
 	ft, err1 := tracers.DefaultDirectory.New(name, &tracers.Context{}, json.RawMessage(cfgJSON))
 	ut, err2 := uptracers.DefaultDirectory.New(name, &uptracers.Context{}, json.RawMessage(cfgJSON))
 	if err1 != nil || err2 != nil {
 		return fmt.Sprintf("cannot_create:%v|%v", err1, err2)
 	}
-	// fork
-	sdb := setupState(c)
-	env := newEnv(c.fork, ft, nil, sdb, nil)
-	if env.rules.IsBerlin {
-		sdb.AddAddressToAccessList(c.root)
+	// fork (a panic inside a tracer callback is an outcome of its own, not a crash of the harness)
+	var fr json.RawMessage
+	var ferr error
+	fpanic := ""
+	func() {
+		defer func() {
+			if x := recover(); x != nil {
+				fpanic = fmt.Sprint(x)
+			}
+		}()
+		sdb := setupState(c)
+		env := newEnv(c.fork, ft, nil, sdb, nil)
+		if env.rules.IsBerlin {
+			sdb.AddAddressToAccessList(c.root)
+		}
+		if c.jpOn {
+			env.evm.AspectCall()
+		} else {
+			env.evm.CloseAspectCall()
+		}
+		ft.CaptureTxStart(gas)
+		var left uint64
+		if create {
+			_, _, left, _ = env.evm.Create(context.Background(), vm.AccountRef(from), c.codes[c.root], gas, c.value)
+		} else {
+			_, left, _ = env.evm.Call(context.Background(), vm.AccountRef(from), c.root, c.input, gas, c.value)
+		}
+		ft.CaptureTxEnd(left)
+		fr, ferr = ft.GetResult()
+	}()
+	if fpanic != "" {
+		lastTracerPanic = fpanic
+		return "fork_tracer_panics:" + name + ":" + strings.ReplaceAll(fpanic, " ", "_")
 	}
-	if c.jpOn {
-		env.evm.AspectCall()
-	} else {
-		env.evm.CloseAspectCall()
-	}
-	ft.CaptureTxStart(gas)
-	_, left, _ := env.evm.Call(context.Background(), vm.AccountRef(callerAddr), c.root, c.input, gas, c.value)
-	ft.CaptureTxEnd(left)
-	fr, ferr := ft.GetResult()
 	// upstream
 	sdb2 := setupState(c)
 	cfg, merge := forkConfig(c.fork)
@@ -420,10 +456,30 @@ func runTracerPair(c *diffCase, name string, cfgJSON string, gas uint64) string 
 		sdb2.Prepare(rules, tctx.Origin, bctx.Coinbase, nil, upvm.ActivePrecompiles(rules), nil)
 		sdb2.AddAddressToAccessList(c.root)
 	}
-	ut.CaptureTxStart(gas)
-	_, left2, _ := evm.Call(upvm.AccountRef(callerAddr), c.root, c.input, gas, c.value)
-	ut.CaptureTxEnd(left2)
-	ur, uerr := ut.GetResult()
+	var ur json.RawMessage
+	var uerr error
+	upanic := ""
+	func() {
+		defer func() {
+			if x := recover(); x != nil {
+				upanic = fmt.Sprint(x)
+			}
+		}()
+		ut.CaptureTxStart(gas)
+		var left2 uint64
+		if create {
+			_, _, left2, _ = evm.Create(upvm.AccountRef(from), c.codes[c.root], gas, c.value)
+		} else {
+			_, left2, _ = evm.Call(upvm.AccountRef(from), c.root, c.input, gas, c.value)
+		}
+		ut.CaptureTxEnd(left2)
+		ur, uerr = ut.GetResult()
+	}()
+	if upanic != "" {
+		// go-ethereum v1.12.0 itself crashes on this execution: it produces no output the fork's could be compared with
+		upstreamTracerPanics++
+		return "same:upstream_itself_panics"
+	}
 	if fmt.Sprint(ferr) != fmt.Sprint(uerr) || !bytes.Equal(fr, ur) {
 		// show the neighbourhood of the first difference (the outputs can be long; what differs is what identifies the case)
 		x, y := strings.ReplaceAll(string(fr), " ", ""), strings.ReplaceAll(string(ur), " ", "")
@@ -654,14 +710,46 @@ func driveDiff(seed uint64, n int, size int, em *Emitter) {
 			if r.Chance(60) {
 				t = cfgs[0]
 			}
-			em.Op("C18", "S tracer-same-tree "+t.n, runTracerPair(tc, t.n, t.cfg, 30_000_000))
+			tv := runTracerPair(tc, t.n, t.cfg, 30_000_000)
+			if tv == "same:upstream_itself_panics" {
+				em.Count("diff:tracer:out-of-scope:upstream-v1.12.0-panics")
+				tv = "same"
+			}
+			em.Op("C18", "S tracer-same-tree "+t.n, tv)
+			if strings.HasPrefix(tv, "fork_tracer_panics:") {
+				em.Op("C03,C18", "S tracer-no-panic "+t.n, tv)
+			} else {
+				em.Op("C03,C18", "S tracer-no-panic "+t.n, "ok")
+			}
 		}
 		// C18: inherited tracers produce upstream's output when no Aspect is involved
 		if i%3 == 0 && !c.create && forkIndex(c.fork) >= 1 {
 			names := []struct{ n, cfg string }{{"callTracer", `{"withLog":true}`}, {"callTracer", `{"onlyTopCall":true}`}, {"flatCallTracer", `{}`},
 				{"flatCallTracer", `{"includePrecompiles":true,"convertParityErrors":true}`}, {"4byteTracer", `{}`}, {"prestateTracer", `{}`}, {"prestateTracer", `{"diffMode":true}`}}
 			t := names[r.Intn(len(names))]
-			em.Op("C18", "S tracer-same "+t.n, runTracerPair(c, t.n, t.cfg, gas))
+			tracerLine := func(label string, verdict string) {
+				if verdict == "same:upstream_itself_panics" {
+					em.Count("diff:tracer:out-of-scope:upstream-v1.12.0-panics")
+					verdict = "same"
+				}
+				em.Op("C18", "S tracer-same "+label, verdict)
+				np := "ok"
+				if strings.HasPrefix(verdict, "fork_tracer_panics:") {
+					np = verdict
+				}
+				em.Op("C03,C18", "S tracer-no-panic "+label, np)
+			}
+			tracerLine(t.n, runTracerPair(c, t.n, t.cfg, gas))
+			// the same tracers when the top-level sender is the target itself (sender and recipient are one account)
+			// and when the transaction is a creation: the tracers' start callbacks treat both specially
+			t2 := names[r.Intn(len(names))]
+			if r.Chance(50) {
+				t2 = names[5+r.Intn(2)]
+			}
+			sc := *c
+			sc.value = big.NewInt(int64(1 + r.Intn(5000)))
+			tracerLine(t2.n+" self-call", runTracerPairFrom(&sc, t2.n, t2.cfg, gas, c.root, false))
+			tracerLine(t2.n+" create", runTracerPairFrom(&sc, t2.n, t2.cfg, gas, callerAddr, true))
 			em.Op("C18", "S tracer-same structLogger", runStructLoggerPair(c, gas))
 		}
 	}
